@@ -16,9 +16,9 @@ pub fn meta(tier: &str) -> CheckMeta {
     CheckMeta {
         id: "C07", level: "model_checking",
         rule: "E-hist under sanitizers: this check runs in the `asan` flavour (C runtime, generated parsers and scanners compiled with -fsanitize=address,undefined; ts_assert live) with a counting allocator installed through ts_set_allocator. (1) the explorers of C01 C02 C04 C06 C08 C09 C10 C13 are re-run unchanged on fixed smaller boxes (quick: their `mini` boxes; thorough: their full quick boxes), including cancelled-and-abandoned parses; after each, every handle is dropped and the number of live allocations must return to the baseline; (2) every API call history up to depth d over an 18-operation alphabet (parse, re-parse, extreme edits, copy, delete, valid/invalid ranges, cancel, resume, reset, drop parser, other language, query new/matches/captures/remove/limit, cursor walk, logger) on 3 documents and 2 languages, each replayed from scratch with the allocation balance checked at the end; (3) Query::new on every string of <=n atoms over 14 query-syntax atoms, executing the accepted ones. Any sanitizer report, assertion failure, crash, foreign/double free or leak is a violation. Non-trivial = history containing a cancellation, an extreme edit or a rejected call / query source that is rejected.",
-        assumptions: vec!["Rust std and the engine itself are not instrumented; only the C runtime, generated parsers and scanners are".into(), "uninitialised reads are covered only by the separate valgrind pass of the thorough tier".into()],
+        assumptions: vec!["Rust std and the engine itself are not instrumented; only the C runtime, generated parsers and scanners are".into(), "uninitialised reads are covered by the separate valgrind memcheck pass of the thorough tier (plain flavour, mini box, evidence file C07-valgrind.json), not by the sanitizer run".into()],
         exhaustive: true,
-        bounds: json!({"sub_explorer_tier": if q { "mini" } else { "quick" }, "api_history_depth": if q { 3 } else { 4 }, "query_atoms": if q { 4 } else { 5 }}),
+        bounds: json!({"sub_explorer_tier": if q || tier == "mini" { "mini" } else { "quick" }, "api_history_depth": if tier == "mini" { 2 } else if q { 3 } else { 4 }, "query_atoms": if tier == "mini" { 3 } else if q { 4 } else { 5 }, "valgrind_memcheck": std::env::var("VF_VALGRIND").is_ok()}),
     }
 }
 
@@ -178,7 +178,7 @@ pub fn worker(ctx: &Ctx, res: &mut ShardResult) {
     }
     // (2) adversarial API histories
     let alpha = alphabet();
-    let depth = if ctx.quick() { 3 } else { 4 };
+    let depth = if ctx.mini() { 2 } else if ctx.quick() { 3 } else { 4 };
     let mut idx = 0usize;
     for d in 1..=depth {
         let mut stop = false;
@@ -202,7 +202,7 @@ pub fn worker(ctx: &Ctx, res: &mut ShardResult) {
     }
     check_balance("api-histories", res);
     // (3) query-source box: the error paths of the query parser
-    let n = if ctx.quick() { 4 } else { 5 };
+    let n = if ctx.mini() { 3 } else if ctx.quick() { 4 } else { 5 };
     let mut parser = Parser::new();
     parser.set_language(&stmts.language).unwrap();
     let trees: Vec<(Vec<u8>, Tree)> = DOCS.iter().map(|d| (d.as_bytes().to_vec(), parser.parse(d, None).unwrap())).collect();
